@@ -603,9 +603,9 @@ pub fn run(tier: &str, rec: &Recorder) -> RunOutput {
     let stats = E2Stats::new();
     let seed = std::env::var("VERIF_SEED").ok().and_then(|s| s.parse().ok()).unwrap_or(0);
     let p = params(tier);
-    for f in c13_families(tier) {
-        for_each_graph(&f, seed, deadline, &stats, |b, c| check_louvain(b, rec, c, &p));
-    }
+    for_each_family(&c13_families(tier), |f| {
+        for_each_graph(f, seed, deadline, &stats, |b, c| check_louvain(b, rec, c, &p));
+    });
     // medium-size inputs: not exhaustive over graphs, but each explored like the small ones
     {
         let med = medium_inputs(tier);
